@@ -1150,12 +1150,12 @@ Section Scale.
 
   Definition b_data s (xys : list (num * Y)) := fold_left (fun d xy => dset (fst xy) (snd xy) d) xys (data s).
   Definition b_pend s (xys : list (num * Y)) := fold_left (fun p xy => remove (fst xy) p) xys (pend s).
-  Definition b_s1 s (xys : list (num * Y)) : st :=
+  Definition b_s1 (Q : params) s (xys : list (num * Y)) : st :=
     let data' := b_data s xys in
     let pend' := b_pend s xys in
     let points := map fst data' in
     let comb := merge_sorted (length pend' + length points) pend' points in
-    let bx := (match comb with x :: _ => x | [] => zero end, last_num comb zero) in
+    let bx := (pmin (lo Q) (match comb with x :: _ => x | [] => zero end), pmax (hi Q) (last_num comb zero)) in
     let ys := map snd data' in
     let y0 := match ys with y :: _ => y | [] => YS zero end in
     let mn := col_fold np_min2 ys in let mx := col_fold np_max2 ys in
@@ -1169,7 +1169,7 @@ Section Scale.
 
   Lemma tell_many_batch_eq (Q : params) s xys :
     tell_many_batch Q s xys =
-    let s1 := b_s1 s xys in
+    let s1 := b_s1 Q s xys in
     let l := b_l Q s1 in
     let s2 := with_los s1 l [] in
     let cb := batch_combined (pairs (nbc s1)) s2 [] [] in
@@ -1217,7 +1217,7 @@ Section Scale.
   Lemma last_num_sc0 l : last_num (map sx_ l) zero = sx_ (last_num l zero).
   Proof. rewrite <- (sx_zero SL) at 1. apply last_num_sc. Qed.
 
-  Lemma b_s1_sc s xys : b_s1 (sc_st s) (map sc_d xys) = sc_st (b_s1 s xys).
+  Lemma b_s1_sc s xys : b_s1 sc_P (sc_st s) (map sc_d xys) = sc_st (b_s1 P s xys).
   Proof.
     unfold b_s1, b_data, b_pend. cbv zeta.
     replace (data (sc_st s)) with (map sc_d (data s)) by reflexivity.
@@ -1236,7 +1236,7 @@ Section Scale.
     replace (match map sx_ comb with x :: _ => x | [] => zero end)
       with (sx_ (match comb with x :: _ => x | [] => zero end))
       by (destruct comb; cbn [map]; [apply (sx_zero SL)|reflexivity]).
-    rewrite last_num_sc0. cbn [fst snd]. rewrite (sx_sub SL). reflexivity.
+    rewrite last_num_sc0. cbn [lo hi sc_P]. rewrite pmin_sx, pmax_sx. cbn [fst snd]. rewrite (sx_sub SL). reflexivity.
   Qed.
 
   Lemma b_l_sc s1 : Inv s1 -> b_l sc_P (sc_st s1) = map sc_e (b_l P s1).
@@ -1283,12 +1283,12 @@ Section Scale.
       + now apply IH.
   Qed.
 
-  Lemma tell_many_batch_sc s xys : Inv (b_s1 s xys) ->
+  Lemma tell_many_batch_sc s xys : Inv (b_s1 P s xys) ->
     tell_many_batch sc_P (sc_st s) (map sc_d xys) = sc_st (tell_many_batch P s xys)
     /\ Inv (tell_many_batch P s xys).
   Proof.
     intros HI1. rewrite !tell_many_batch_eq. cbv zeta. rewrite b_s1_sc.
-    set (s1 := b_s1 s xys) in *.
+    set (s1 := b_s1 P s xys) in *.
     rewrite (b_l_sc HI1).
     set (l := b_l P s1).
     change (with_los (sc_st s1) (map sc_e l) []) with (sc_st (with_los s1 l [])).
@@ -1392,7 +1392,7 @@ Section Scale.
     destruct (In_dset _ _ _ _ H') as [->|H'']; [right; now left|now left].
   Qed.
 
-  Lemma Inv_b_s1 s xys : Inv s -> ys_shape xys -> Inv (b_s1 s xys).
+  Lemma Inv_b_s1 s xys : Inv s -> ys_shape xys -> Inv (b_s1 P s xys).
   Proof.
     intros (_ & _ & _ & H4) Hs.
     assert (Hshape : forall e, In e (b_data s xys) -> is_vec (snd e) = vec).
